@@ -2,33 +2,31 @@ package main
 
 import (
 	"fmt"
+	"os"
 
 	"bxhlint/core"
-
-	"golang.org/x/tools/go/ssa"
 )
 
+// dbg prints, for the function named in BXH_DBG_FN (e.g. "internal/executor.(*BlockExecutor).transfer"),
+// every conditional with the fact the path engine derives from it. Triage aid, not a check.
 func dbg(p *core.Prog) {
-	fn := p.Fn("internal/executor/contracts.checkPermission")
-	reg := fn.Params[3]
-	fmt.Println("reg", reg.Name())
-	es := core.EqualityEdges(fn, func(v ssa.Value) bool { return v == ssa.Value(reg) }, func(ssa.Value) bool { return true }, true)
-	for b, m := range es {
-		fmt.Println("edge", b.Index, m)
+	fn := p.Fn(os.Getenv("BXH_DBG_FN"))
+	if fn == nil {
+		fmt.Println("BXH_DBG_FN not found")
+		return
 	}
-}
-
-func init() {
-	dbg2 = func(p *core.Prog) {
-		fn := p.Fn("internal/executor/contracts.checkPermission")
-		reg := fn.Params[3]
-		es := core.EqualityEdges(fn, func(v ssa.Value) bool { return v == ssa.Value(reg) }, func(ssa.Value) bool { return true }, true)
-		cut := core.CutOf(es)
-		rs := core.Reach([]core.Point{core.EntryOf(fn)}, nil, cut)
-		for _, r := range core.Returns(fn) {
-			fmt.Println("ret block", r.Block().Index, rs.Has(r))
+	for _, b := range fn.Blocks {
+		ifi := core.IfOf(b)
+		if ifi == nil {
+			continue
 		}
+		f := core.CondFact(ifi.Cond)
+		sub := "<nil>"
+		if f.Subject != nil {
+			sub = f.Subject.Name() + " " + f.Subject.String()
+		}
+		fmt.Printf("block %d %s: kind=%v subject=%s const=%q field=%q neg=%v  cond=%s succs=%d,%d\n", b.Index, p.Pos(ifi.Pos()), f.Kind, sub, f.Const, f.Field, f.Negated, ifi.Cond.String(), b.Succs[0].Index, b.Succs[1].Index)
 	}
 }
 
-var dbg2 func(p *core.Prog)
+var dbg2 = func(p *core.Prog) {}
